@@ -33,6 +33,7 @@ def run(ctx: Ctx) -> None:
     _memo.rule_paste_incomplete(ctx, ['graphiq/backends/density_matrix/functions.py', 'graphiq/metrics.py', 'graphiq/backends/density_matrix/state.py'])
     _memo.rule_negative_start(ctx, ['graphiq/backends/density_matrix/functions.py', 'graphiq/metrics.py', 'graphiq/backends/density_matrix/state.py'])
     _memo.rule_elim_no_pivot(ctx, ['graphiq/backends/density_matrix/functions.py', 'graphiq/metrics.py', 'graphiq/backends/density_matrix/state.py'])
+    _memo.rule_subject_drift(ctx, ['graphiq/backends/density_matrix/functions.py', 'graphiq/metrics.py', 'graphiq/backends/density_matrix/state.py'])
     numeric.rule_adjoint(ctx, [DMF, DMS])
     numeric.rule_einsum_trace(ctx)
     numeric.rule_raise_warning(ctx, [(DMF, "fidelity"), (DMF, "trace_distance"), (DMF, "partial_trace"),
@@ -119,6 +120,8 @@ def rule_rep_dispatch(ctx: Ctx) -> None:
 
 
 KNOCKOUTS = [
+    Knockout("branch-overlap-not-squared", "graphiq/metrics.py", sub_once("[p_i * sfm.fidelity(tableau, t_i) for p_i, t_i in rep_data.mixture]", "[p_i * sfm.inner_product(tableau, t_i) for p_i, t_i in rep_data.mixture]"), "weight.fidelity", "not squared"),
+    Knockout("infidelity-chain-tests-unconverted-state", "graphiq/metrics.py", sub_once("            elif isinstance(rep_data, MixedStabilizer):", "            elif isinstance(state.rep_data, MixedStabilizer):"), "chain.subject-drift", "Infidelity.evaluate"),
     Knockout("sqrtm-clip-at-tolerance", DMF, sub_once("    eig_vals = np.maximum(eig_vals, 0)\n", "    eig_vals = np.where(eig_vals > 1e-8, eig_vals, 0.0)\n"), "num.spectral-sqrt", "zeroes every eigenvalue below"),
     Knockout("sqrtm-maximum-eps", DMF, sub_once("    eig_vals = np.maximum(eig_vals, 0)\n", "    eig_vals = np.maximum(eig_vals, 1e-12)\n"), "num.spectral-sqrt", "clips the eigenvalues at"),
     Knockout("branch-fidelity-unweighted", "graphiq/metrics.py", sub_once("[p_i * sfm.fidelity(tableau, t_i) for p_i, t_i in rep_data.mixture]", "[sfm.fidelity(tableau, t_i) for p_i, t_i in rep_data.mixture]"), "weight.fidelity", "not weighted"),
